@@ -82,7 +82,24 @@ func c22KeyOf(c *Ctx, v ssa.Value, depth int) (idx ssa.Value, why string) {
 			one = arg
 		case *ssa.Call:
 			if !strings.HasSuffix(calleeName(x.Common()), "transaction.intToKey") {
-				return nil, "key produced by " + calleeName(x.Common())
+				// any other key helper counts if every one of its exits returns the canonical
+				// encoding of its own (single) parameter — the check intToKey itself has to pass
+				h := x.Common().StaticCallee()
+				okH := h != nil && len(h.Params) == 1 && len(x.Call.Args) == 1 && depth < 3
+				if okH {
+					for _, e := range exitAlts(h) {
+						if isNilConst(e.Results[0]) {
+							continue
+						}
+						idx, _ := c22KeyOf(c, e.Results[0], depth+1)
+						if idx == nil || idx != ssa.Value(h.Params[0]) {
+							okH = false
+						}
+					}
+				}
+				if !okH {
+					return nil, "key produced by " + calleeName(x.Common())
+				}
 			}
 			one = x.Call.Args[0]
 		default:
